@@ -669,12 +669,18 @@ def checkformat_delegation(delegation: Any) -> Delegation:
             "Delegation information must be a dictionary specifying "
             '"pubkeys" and "threshold" elements.'
         )
-    elif not (
-        set(delegation) == {"threshold", "pubkeys"}
-        and delegation["threshold"] >= 1
-        and isinstance(delegation["pubkeys"], list)
-        and all([is_hex_key(k) for k in delegation["pubkeys"]])
-    ):
+
+    try:
+        well_formed = (
+            set(delegation) == {"threshold", "pubkeys"}
+            and delegation["threshold"] >= 1
+            and isinstance(delegation["pubkeys"], list)
+            and all([is_hex_key(k) for k in delegation["pubkeys"]])
+        )
+    except ArithmeticError:  # e.g. decimal.Decimal("NaN") >= 1
+        well_formed = False
+
+    if not well_formed:
         raise ValueError(
             "Delegation information must be a dictionary specifying "
             'exactly two elements: "pubkeys" (assigned a list of '
